@@ -91,6 +91,18 @@ def signature(obs):
         return 'fail' if tag(obs) == 'err' else ('bad:' + str(tag(obs)))
     return tuple(sorted((f[1], find(f, 'hash')[1]) for f in obs[1:]))
 
+def user_type_named_like_generated(c):
+    """a module defines `T` with an EMPTY vftable block (no functions, no size) and an EMPTY type called `TVftable`: the generated
+    struct and the user's are then structurally equal, which is the one case in which the clash test cannot tell them apart"""
+    for (mp, file, m) in modules_of(c):
+        empties = set(def_name(d) for d in m_defs(m) if def_is_type(d) and not type_stmts(d) and not type_attrs(d))
+        for d in m_defs(m):
+            if def_is_type(d) and def_name(d) + 'Vftable' in empties:
+                blocks = [s_ for s_ in type_stmts(d) if tag(s_) == 'vftable']
+                if blocks and len(blocks[0]) == 2 and not blocks[0][1][1:]:
+                    return True
+    return False
+
 def generated_shadows_import(c):
     """a module imports by name two items with the same last segment, one of them a generated <T>Vftable struct: which one the
     name denotes changes at the moment the generated item is registered"""
@@ -196,6 +208,8 @@ def judge_all(cases, impl, model, tier):
                 reason += '/generated-vftable-in-signature'
             elif generated_shadows_import(c):
                 reason += '/generated-vftable-shadows-import'
+            elif user_type_named_like_generated(c):
+                reason += '/user-type-equal-to-generated-vftable'
             detail = '; '.join('%s: %s' % ('fail' if k == 'fail' else 'output#%d' % i, ','.join(v[:4])) for i, (k, v) in enumerate(sigs.items()))
             fs.append(Finding('O', reason, cid, detail[:600]))
             extra += [v for v in groups[cid] if v[1] in [x for vv in sigs.values() for x in vv[:2]]]
